@@ -127,3 +127,21 @@ def digest_diff(a, b):
             else:
                 out.append((n, "changed", None))
     return out
+
+
+def without_position_urls(d):
+    """A schema digest with the URL taken out of every recorded default
+    position (line and column stay).  The XML reader records the name a file
+    object was opened with as the position's URL, a load by path or URL
+    records the resource URL; C18 speaks about which resource is reached and
+    what it yields, not about how a default's source position is spelled."""
+    if isinstance(d, dict):
+        return {k: without_position_urls(v) for k, v in d.items()}
+    if isinstance(d, list):
+        if (len(d) == 2 and isinstance(d[1], list) and len(d[1]) == 3
+                and isinstance(d[1][0], (int, type(None)))
+                and isinstance(d[1][1], (int, type(None)))
+                and isinstance(d[1][2], (str, type(None)))):
+            return [without_position_urls(d[0]), d[1][:2]]
+        return [without_position_urls(x) for x in d]
+    return d
